@@ -86,6 +86,11 @@ def strict_range_guard(body, pvn, site_bb, first_roots, second_roots):
     return verdict
 
 
+def for_loops_(b):
+    from engines import for_loops
+    return for_loops(b)
+
+
 def run(ck, prog, ctx):
     ck.rule("TAINT", "source-to-sink: unchecked append sink reached only by iterated group elements (DESIGN 3.14)")
     ck.rule("DOM", "search-arm dominance and returned flag (DESIGN 3.6/3.10)")
@@ -745,6 +750,23 @@ def run(ck, prog, ctx):
             ok = want_q in dom
             ck.ob("MERGE", key, ok, "`%s` answers with a copy of `%s` when `%s` is empty%s" % (sym, ob_.local_name(p_ret), "/".join(ob_.local_name(q) for q in dom), "" if ok else (": the union of a non-empty `%s` with an empty `%s` must be `%s`" % (ob_.local_name(3 - p_ret), ob_.local_name(p_ret), ob_.local_name(3 - p_ret)) if want_other else ": the intersection is not `%s` just because the other operand is empty" % ob_.local_name(p_ret))), where=ob_.where(t.line))
     ck.extra["set-operator shortcuts examined"] = n_short
+
+    # `a - b` (a difference operator, where the crate has one): an early return with a FRESH EMPTY group is right when `a` is empty, never because
+    # `b` is empty (`a - {}` is `a`); an early `a.clone()` is right when `b` is empty (or the ranges are disjoint)
+    for sb_ in sorted(prog.production(), key=lambda x: x.id):
+        if not (sb_.kind == "AssocFn" and sb_.impl_trait and str(sb_.impl_trait).endswith("ops::Sub") and sb_.name == "sub" and "&term::group::HpoGroup" in sb_.id.split(" as ")[0]):
+            continue
+        lps = for_loops_(sb_)
+        heads_ = {lp["header"] for lp in lps}
+        for bi, t in sb_.calls():
+            if t.callee.method in ("new", "default", "with_capacity") and "HpoGroup" in (t.callee.res or "") and t.dest is not None and t.dest.is_local() and t.dest.local == 0 and not any(sb_.can_reach(bi, h) for h in heads_):
+                guards = set()
+                for sbi in sorted(sb_.reach):
+                    x = sb_.blocks[sbi].term
+                    if x.k == "switch" and any(sb_.edge_dominates((sbi, tg), bi) for tg in x.successors()):
+                        guards |= params_of(pv.of_operand(sb_, x.discr), sb_.id)
+                if guards:
+                    ck.ob("MERGE", "shortcut/sub/returns-empty/%d" % bi, guards == {1}, "`-` answers with an empty group on a path decided by %s%s" % ("/".join(sb_.local_name(g) for g in sorted(guards)), "" if guards == {1} else ": `a - b` is empty only because `a` is; for an empty `b` it is `a`"), where=sb_.where(t.line))
 
     # ------------------------------------------------------------------ SHORTCUT (ii): a way round the scan of `&` guarded by a range comparison
     # `a & b` may skip its scan when the id ranges of the two sorted operands are DISJOINT:  last(x) < first(y)  (strictly).  With `<=` the
